@@ -928,6 +928,48 @@ def _classify(trace, l):
     return sig
 
 
+HANG = '__hang__'
+
+
+def _guarded(arg):
+    """run one worker item in a daemon thread: a call into the state machine that never returns (e.g. a request
+    made by a cleanup function that blocks on a lock held by the cycle) must end as a verdict, not as a check
+    that hangs (DESIGN 9.5 lesson 7)"""
+    fname, a, limit = arg
+    box = {}
+
+    def work():
+        try:
+            box['r'] = globals()[fname](a)
+        except BaseException as e:  # noqa
+            box['e'] = e
+    th = threading.Thread(target=work, daemon=True)
+    th.start()
+    th.join(limit)
+    if th.is_alive():
+        return HANG
+    if 'e' in box:
+        raise box['e']
+    return box['r']
+
+
+def _gmap(chk, fn, args, limit, module, empty, **kw):
+    """pool_map with the guard; an item that does not come back is a violation of the termination clause and is
+    replaced by `empty` for the rest of the evaluation"""
+    res = pool_map(_guarded, [(fn.__name__, a, limit) for a in args], **kw)
+    out = []
+    for a, r in zip(args, res):
+        if isinstance(r, str) and r == HANG:
+            chk.impl_traces += 1
+            chk.violation({'module': module, 'clause': 'every call returns (cycle / start / stop terminate)',
+                           'worker': fn.__name__},
+                          {'hang': {'fn': fn.__name__, 'arg': a, 'limit': limit}})
+            out.append(empty)
+        else:
+            out.append(r)
+    return out
+
+
 def run(chk):
     quick = chk.tier == 'quick'
     chk.rule = ('spec->code: every (program table, operation sequence over cycle/start/stop) that Gen_StateMachine '
@@ -945,7 +987,7 @@ def run(chk):
     r, behs = emit_behaviours('Gen_StateMachine', f'Gen_StateMachine_{t}.cfg', maximal_only=False, timeout=1000)
     chk.add_tlc(r)
     maxloops = 2
-    res = pool_map(_replay, [(b, maxloops) for b in behs])
+    res = _gmap(chk, _replay, [(b, maxloops) for b in behs], 8, 'StateMachine', None)
     for beh, bad in zip(behs, res):
         chk.impl_traces += 1
         acts = [{k: v for k, v in s.items() if k != 'exp'} for s in beh]
@@ -961,11 +1003,13 @@ def run(chk):
     # code -> spec, single thread with re-entrant requests
     n = 300 if quick else 6000
     args = [(chk.seed * 1000003 + i, 14 if i % 2 else 30, _variant(i)) for i in range(n)]
-    traces = pool_map(_random_trace, args)
+    traces = _gmap(chk, _random_trace, args, 8, 'StateMachine', None)
     metas = [{'mode': 'random', 'seed': a[0], 'nops': a[1], 'variant': list(a[2])} for a in args]
+    metas = [m for m, tr in zip(metas, traces) if tr is not None]
+    traces = [tr for tr in traces if tr is not None]
     # code -> spec, second thread at every line of cycle()
     ns = 8 if quick else 150
-    for part in pool_map(_conc_scenario, [chk.seed * 7919 + i for i in range(ns)], chunksize=1):
+    for part in _gmap(chk, _conc_scenario, [chk.seed * 7919 + i for i in range(ns)], 240, 'StateMachine', [], chunksize=1):
         for meta, tr in part:
             metas.append(dict(meta, mode='preempt'))
             traces.append(tr)
@@ -1000,15 +1044,17 @@ def run(chk):
                 raise MachineryError(f'{cfg} is expected to violate {inv}, got {r.violated or r.error}')
     n = 200 if quick else 4000
     seeds = [(chk.seed * 1000033 + i, 25) for i in range(n)]
-    traces = pool_map(_hs_random_trace, seeds)
+    traces = _gmap(chk, _hs_random_trace, seeds, 8, 'HasStates', None)
     metas = [{'mode': 'random', 'seed': sd, 'nops': k} for sd, k in seeds]
+    metas = [m for m, tr in zip(metas, traces) if tr is not None]
+    traces = [tr for tr in traces if tr is not None]
     ns = 6 if quick else 120
-    for part in pool_map(_hs_conc_scenario, [chk.seed * 7907 + i for i in range(ns)], chunksize=1):
+    for part in _gmap(chk, _hs_conc_scenario, [chk.seed * 7907 + i for i in range(ns)], 240, 'HasStates', [], chunksize=1):
         for meta, tr in part:
             metas.append(dict(meta, mode='preempt'))
             traces.append(tr)
     ns = 30 if quick else 400
-    for part in pool_map(_hs_req_scenario, [chk.seed * 7901 + i for i in range(ns)], chunksize=1):
+    for part in _gmap(chk, _hs_req_scenario, [chk.seed * 7901 + i for i in range(ns)], 240, 'HasStates', [], chunksize=1):
         for meta, tr in part:
             metas.append(dict(meta, mode='preempt-request'))
             traces.append(tr)
@@ -1034,6 +1080,14 @@ def run(chk):
 def replay(chk, rep):
     d = rep['detail']
     hs = rep.get('signature', {}).get('module') == 'HasStates'
+    if 'hang' in d:
+        h = d['hang']
+        a = h['arg']
+        a = tuple(tuple(x) if isinstance(x, list) and h['fn'] == '_random_trace' and i == 2 else x
+                  for i, x in enumerate(a)) if isinstance(a, list) else a
+        r = _guarded((h['fn'], a, h['limit']))
+        print('the call does not return' if isinstance(r, str) and r == HANG else r)
+        return 0
     if 'behaviour' in d:
         print(json.dumps(_replay((d['behaviour'], d['maxloops'])), indent=1))
     elif hs and d['meta']['mode'] == 'random':
